@@ -121,10 +121,11 @@ def C12():
     from contracts.colors import GetRtfColorIndex, GenerateColorTable, LEMMAS, TABLES
     from contracts.encoder import EncodeCtx
     from contracts.color_glue import UNITS as GLUE
+    from contracts.attributes import EncodeRows
     from contracts import replayers as R
     return Property(
         "C12",
-        units=[ContractUnit(GetRtfColorIndex()), ContractUnit(GenerateColorTable()), ContractUnit(EncodeCtx())] + [ContractUnit(u) for u in GLUE] + LEMMAS + TABLES,
+        units=[ContractUnit(GetRtfColorIndex()), ContractUnit(GenerateColorTable()), ContractUnit(EncodeCtx()), ContractUnit(EncodeRows())] + [ContractUnit(u) for u in GLUE] + LEMMAS + TABLES,
         level="proof",
         technique="both functions are shown to compute the same sorted(filter(used)) term; index contract + table loop invariant + composition "
                   "lemma table[idx(c)] == rgb(c); real colour tables checked exhaustively; glue: Utils._get_color_index asks the service for exactly this colour and "
@@ -132,6 +133,7 @@ def C12():
         trusted_base=[SOLVERS, ENGINE, "stdlib: filtering comprehension, sorted(key=), list.index as functions of the input list with their defining axioms (DESIGN 1.7)"],
         assumptions=["collect_document_colors coverage of every emitted colour attribute and font-table references are not yet under contract in this check"],
         replayers={"services/color_service.py::ColorService": R.replay_color_index, "lemma::c12": R.replay_color_index, "row.py::": R.replay_colour_references, "table::colour_context_frame": R.replay_colour_references,
+                   "attributes.py::": R.replay_colour_references,
                    "services/encoding_service.py::": R.replay_colour_references, "rtf/syntax.py::": R.replay_colour_references,
                    "encoding/unified_encoder.py::UnifiedRTFEncoder.encode": R.replay_purity, "table::colour_collection": R.replay_colour_collection},
         design_ref="4/C12, A17",
